@@ -114,6 +114,55 @@ class SymDict:
         return self._v[i]
     def copy(self): return SymDict(self.items())
 
+# ------------------------------------------------------------------ symbolic keys in native dicts
+class SymKey:
+    """a symbolic value stored as a key of a native dict (e.g. a memoisation cache of the code under test): identity hash, equality decided
+    symbolically; dicts holding such keys are looked up by scanning (see sx_getitem / sx_in / sx_meth)"""
+    __slots__ = ('v',)
+    def __init__(self, v): self.v = v
+    def __hash__(self): return id(self)
+    def __eq__(self, o): return self is o
+    def __repr__(self): return 'SymKey(%r)' % (self.v,)
+    def __getattr__(self, name): raise Unsupported('a symbolic dictionary key was used as a value (.%s)' % name)
+
+SYMKEY_DICTS = {}     # id(dict) -> dict, for dicts that hold SymKey entries (cleared by the engine at the start of each path)
+
+
+def _kv(y):
+    return y.v if isinstance(y, SymKey) else y
+
+
+def _keyeq(a, b):
+    a, b = _kv(a), _kv(b)
+    if isinstance(a, tuple) and isinstance(b, tuple):
+        return len(a) == len(b) and all(_keyeq(x, y) for x, y in zip(a, b))
+    r = (a == b)
+    if r is NotImplemented: return False
+    return bool(r)
+
+
+def _scan(o, k):
+    """the stored key equal to k (forking on symbolic equality), or a marker"""
+    for y in list(o):
+        if _keyeq(k, y): return y
+    return _MISSING
+
+_MISSING = object()
+
+
+def _needs_scan(o, k):
+    return type(o) is dict and (_has_sym(k) or id(o) in SYMKEY_DICTS)
+
+
+def sx_setitem(o, k, v):
+    if type(o) is dict and (_has_sym(k) or id(o) in SYMKEY_DICTS):
+        y = _scan(o, k)
+        if y is not _MISSING: o[y] = v; return
+        if _has_sym(k):
+            o[SymKey(k)] = v; SYMKEY_DICTS[id(o)] = o; return
+    o[k] = v
+
+
 # ------------------------------------------------------------------ shims
 def _anysym(args):
     for a in args:
@@ -156,9 +205,35 @@ def _str(*a):
         return f(x)
     return str(*a)
 
+PRECISE_REPR = [False]      # a harness that depends on repr() of strings (e.g. a digest over str(list)) switches the exact ASCII model on
+
+
+def _repr_symstr(x):
+    """CPython's repr() of a str for code points 1..126"""
+    from .values import ceq, c_in, cin_range
+    cs = x.c
+    has_sq = any(decide(ceq(c, 39)) for c in cs)
+    has_dq = any(decide(ceq(c, 34)) for c in cs) if has_sq else False
+    q = 34 if (has_sq and not has_dq) else 39
+    out = [q]
+    for c in cs:
+        if decide(ceq(c, 92)): out += [92, 92]
+        elif decide(ceq(c, q)): out += [92, q]
+        elif decide(ceq(c, 10)): out += [92, 110]
+        elif decide(ceq(c, 13)): out += [92, 114]
+        elif decide(ceq(c, 9)): out += [92, 116]
+        elif decide(zor([cin_range(c, 0, 31), ceq(c, 127)])):
+            v = concretize_int(mkint(c), 40)
+            out += [ord(ch) for ch in '\\x%02x' % v]
+        else: out.append(c)
+    out.append(q)
+    return mkstr(out)
+
+
 def _repr(x):
     if isinstance(x, SymStr):
-        # repr of a symbolic string is used for messages only: not modelled, opaque
+        if PRECISE_REPR[0]: return _repr_symstr(x)
+        # repr of a symbolic string is normally used for messages only: not modelled, opaque
         return OpaqueStr('repr of a symbolic string')
     if isinstance(x, OpaqueStr): return x
     if isinstance(x, SymInt): return sym_str_of_int(x)
@@ -276,7 +351,12 @@ def _stringio(*a, **k):
     if a and isinstance(a[0], SymStr): return SymStringIO(a[0])
     return io.StringIO(*a, **k)
 
-_CALLS = {'StringIO': _stringio, 'isinstance': _isinst, 'type': None, 'str': _str, 'int': _int, 'bool': _bool, 'set': _set,
+def _bytes(*a, **k):
+    if a and isinstance(a[0], SymStr): return SymBytes(a[0])
+    if a and isinstance(a[0], OpaqueStr): raise Unsupported('bytes() of an unmodelled string')
+    return bytes(*a, **k)
+
+_CALLS = {'bytes': _bytes, 'StringIO': _stringio, 'isinstance': _isinst, 'type': None, 'str': _str, 'int': _int, 'bool': _bool, 'set': _set,
           'frozenset': _frozenset, 'ord': _ord, 'chr': _chr, 'hash': _hash, 'repr': _repr}
 
 def sx_call(name, /, *a, **k):
@@ -289,6 +369,7 @@ def sx_call(name, /, *a, **k):
 
 def sx_in(x, c):
     if hasattr(x, '__sx_in__'): return x.__sx_in__(c)
+    if _needs_scan(c, x): return _scan(c, x) is not _MISSING
     if hasattr(c, '__sx_contains__'): return c.__sx_contains__(x)
     if isinstance(c, (SymSet, SymDict)):
         return x in c
@@ -310,6 +391,10 @@ def sx_in(x, c):
 
 def sx_getitem(o, k):
     if hasattr(k, '__sx_key__'): return k.__sx_key__(o)
+    if _needs_scan(o, k):
+        y = _scan(o, k)
+        if y is _MISSING: raise KeyError(k)
+        return o[y]
     if isinstance(k, (SymStr, SymInt, SymBool, SymEnum)):
         if isinstance(o, dict) or type(o).__name__ == 'mappingproxy':
             for y in o:
@@ -416,6 +501,18 @@ def sx_meth(recv, name, /, *a, **k):
         if _anysym(a) or any(isinstance(x, tuple) and _anysym(x) for x in a):
             if name == 'format': return _format(recv, *a, **k)
             return getattr(SymStr(chars_of(recv)), name)(*a, **k)
+    elif type(recv) is dict and a and name in ('get', 'pop', '__contains__', '__getitem__', 'setdefault') and _needs_scan(recv, a[0]):
+        y = _scan(recv, a[0])
+        if y is not _MISSING: return getattr(recv, name)(y, *a[1:])
+        if name == 'get': return a[1] if len(a) > 1 else None
+        if name == 'pop':
+            if len(a) > 1: return a[1]
+            raise KeyError(a[0])
+        if name == '__contains__': return False
+        if name == 'setdefault':
+            d = a[1] if len(a) > 1 else None
+            sx_setitem(recv, a[0], d); return d
+        raise KeyError(a[0])
     elif isinstance(recv, dict) and a and is_sym(a[0]) and name in ('get', 'pop', '__contains__', '__getitem__'):
         for y in recv:
             if bool(a[0] == y):
@@ -482,15 +579,17 @@ def sx_set(*items):
     if _anysym(items): return SymSet(items)
     return set(items)
 
-SHIMS = dict(sx__call=sx_call, sx__in=sx_in, sx__getitem=sx_getitem, sx__fmt=sx_fmt, sx__fstr=sx_fstr,
+SHIMS = dict(sx__setitem=sx_setitem, sx__call=sx_call, sx__in=sx_in, sx__getitem=sx_getitem, sx__fmt=sx_fmt, sx__fstr=sx_fstr,
              sx__mod=sx_mod, sx__meth=sx_meth, sx__set=sx_set, sx__re=RE_SHIM)
 
-WRAP_CALLS = {'StringIO', 'isinstance', 'int', 'str', 'bool', 'hash', 'repr', 'type', 'set', 'frozenset', 'ord', 'chr'}
+WRAP_CALLS = {'bytes', 'StringIO', 'isinstance', 'int', 'str', 'bool', 'hash', 'repr', 'type', 'set', 'frozenset', 'ord', 'chr'}
 
 # ------------------------------------------------------------------ transformer
 class Tr(ast.NodeTransformer):
     def __init__(self):
         self.cls = []
+        self.scope = []
+        self.ntmp = 0
     def generic_visit(self, node):
         # never rewrite inside annotations (they are stringified and pattern-matched by dataclasses)
         saved = {}
@@ -501,7 +600,7 @@ class Tr(ast.NodeTransformer):
         for f, v in saved.items(): setattr(node, f, v)
         return node
     def visit_ClassDef(self, node):
-        self.cls.append(node.name); self.generic_visit(node); self.cls.pop(); return node
+        self.cls.append(node.name); self.scope.append('class'); self.generic_visit(node); self.scope.pop(); self.cls.pop(); return node
     def mangle(self, attr):
         if self.cls and attr.startswith('__') and not attr.endswith('__'):
             return '_' + self.cls[-1].lstrip('_') + attr
@@ -515,7 +614,7 @@ class Tr(ast.NodeTransformer):
             keep.append(d)
         node.decorator_list = keep
     def visit_FunctionDef(self, node):
-        self._strip_cache(node); self.generic_visit(node); return node
+        self._strip_cache(node); self.scope.append('func'); self.generic_visit(node); self.scope.pop(); return node
     visit_AsyncFunctionDef = visit_FunctionDef
     def visit_Import(self, node):
         out = []
@@ -546,6 +645,26 @@ class Tr(ast.NodeTransformer):
         if isinstance(node.ctx, ast.Load) and not isinstance(node.slice, ast.Slice):
             return ast.copy_location(ast.Call(ast.Name('sx__getitem', ast.Load()), [node.value, node.slice], []), node)
         return node
+    def visit_Assign(self, node):
+        self.generic_visit(node)
+        def is_sub(t): return isinstance(t, ast.Subscript) and not isinstance(t.slice, (ast.Slice, ast.Tuple))
+        if len(node.targets) == 1 and is_sub(node.targets[0]):
+            t = node.targets[0]
+            call = ast.Call(ast.Name('sx__setitem', ast.Load()), [t.value, t.slice, node.value], [])
+            return ast.copy_location(ast.Expr(call), node)
+        if len(node.targets) > 1 and any(is_sub(t) for t in node.targets) and self.scope and self.scope[-1] == 'func':
+            # a = d[k] = v  ->  tmp = v; a = tmp; d[k] = tmp   (value evaluated once, targets assigned left to right)
+            self.ntmp += 1
+            tmp = 'sx__tmp%d' % self.ntmp
+            out = [ast.Assign([ast.Name(tmp, ast.Store())], node.value)]
+            for t in node.targets:
+                if is_sub(t):
+                    out.append(ast.Expr(ast.Call(ast.Name('sx__setitem', ast.Load()), [t.value, t.slice, ast.Name(tmp, ast.Load())], [])))
+                else:
+                    out.append(ast.Assign([t], ast.Name(tmp, ast.Load())))
+            return [ast.copy_location(x, node) for x in out]
+        return node
+
     def visit_Set(self, node):
         self.generic_visit(node)
         if any(isinstance(e, ast.Starred) for e in node.elts): return node
